@@ -286,13 +286,33 @@ func scenario(rec *mon.Recorder, c int) {
 			cl.Teardown(down)
 			steps = append(steps, fmt.Sprintf("node %d down", down+1))
 			live = liveNodes()
-			e, ok := create(live[0], 1, 1)
-			if !ok {
-				rec.Inconclusive(desc + ": create with a node down failed")
-				return
+			emptyIt := rng.Intn(2) == 0 // the catalogue the returning node must restore may be empty
+			var e entry
+			if !emptyIt {
+				var ok bool
+				e, ok = create(live[0], 1, 1)
+				if !ok {
+					rec.Inconclusive(desc + ": create with a node down failed")
+					return
+				}
+				model[e.id] = e
+				steps = append(steps, "create "+e.id.String())
+			} else {
+				for id, m := range model {
+					ok := false
+					for attempt := 0; attempt < 10 && !ok; attempt++ {
+						cl.Guard(4*time.Second, func() { ok = live[0].DM().Delete(ctx, id) == nil })
+					}
+					if !ok {
+						rec.Inconclusive(desc + ": delete with a node down failed")
+						return
+					}
+					deleted[id] = m
+					delete(model, id)
+					steps = append(steps, "delete "+id.String())
+				}
+				steps = append(steps, "catalogue is empty")
 			}
-			model[e.id] = e
-			steps = append(steps, "create "+e.id.String())
 			for id, m := range model {
 				if id != e.id && rng.Intn(2) == 0 {
 					ok := false
